@@ -235,6 +235,8 @@ RULES += engine.movegen_premises(["check-mirror"])
 # alpha-beta / null-window re-search, the terminal scores, and a completed root search recording its result (C11 rules)
 RULES += engine.premise_rules("c11", ["exits", "root-result", "windows", "cut", "terminal", "ply-counter", "permutation"])
 # ... and the move found is announced only if the PV walk that runs before the announcement does not trip its own assertion
+# keys stand for positions only as far as comparing two keys compares the whole word (C05.key-identity)
+RULES += engine.premise_rules("c05", ["key-identity"])
 RULES += engine.premise_rules("c14", ["pv-legal"])
 
 # the mate positions reach the search as FEN strings: the position searched is the one the FEN describes (C07)
